@@ -80,6 +80,10 @@ func (withdrawTx) Validate(ctx *action.Context, signedTx action.SignedTx) (bool,
 	if !withdraw.WithdrawAmount.IsValid(ctx.Currencies) {
 		return false, errors.Wrap(action.ErrInvalidAmount, withdraw.WithdrawAmount.String())
 	}
+	// ToCoinWithBase converts through int64: 2^64-1 would be withdrawn as -1
+	if !withdraw.WithdrawAmount.Value.BigInt().IsInt64() {
+		return false, errors.Wrap(action.ErrInvalidAmount, withdraw.WithdrawAmount.String())
+	}
 	err = withdraw.ValidatorAddress.Err()
 	if err != nil {
 		return false, errors.Wrap(action.ErrInvalidAddress, err.Error())
